@@ -145,6 +145,15 @@ def composite : List (List (Vec α)) → List (Vec α)
 def translationRotation (cell : Mat α) (g : List (α × Vec α)) (u1 u2 u3 w x y z : α) : List (Vec α) :=
   (rotation g w x y z).map (vadd (translation cell (g.map Prod.snd) u1 u2 u3))
 
+/-- `DisplacementMove.attempt_displacement` as seen from the operation: attempt `k` adds the translation the operation
+    computed (on the ORIGINAL positions — a vetoed attempt is undone before the next draw) and `check_move` gives its
+    verdict; the displacement the atoms end up with is the translation of the first attempt that passes, and none at
+    all (`none`: positions restored, the move fails) when `max_attempts` attempts were vetoed -/
+def moveLoop : Nat → List (List (Vec α)) → List Bool → Option (List (Vec α))
+  | 0, _, _ => none
+  | k + 1, t :: ts, c :: cs => if c then some t else moveLoop k ts cs
+  | _ + 1, _, _ => none
+
 /-! ## cell.py -/
 
 def b2n (b : Bool) : α := if b then Num.one else Num.zero
